@@ -116,7 +116,7 @@ def run(ctx):
                   10 ** rnd.uniform(1, 3), rnd.uniform(0.7, 3.0), ("random", kind, sps, shape))
         ctx.case(("random", kind, sps % 2, sps >= 16, shape))
     # ---- 3. packaged decision routines
-    for it in range(40 if T else 4):
+    for it in range(40 if T else 8):
         sps = rnd.choice([8, 16, 32])
         gv(sps=sps, R=10e9)
         n = rnd.choice([32, 64, 127])
@@ -124,11 +124,13 @@ def run(ctx):
         if min(bits) == max(bits):
             bits[0] = 1 - bits[0]
         x = DAC(bits, 0.0, 5.0)
-        o = MZM(optical_signal(np.full(n * sps, 0.03 + 0j)), x, bias=-5.0, Vpi=5.0, ER_dB=20)
-        y = PD(o, 0.8 * 10e9, 1.0, 300.0, 50.0, "ase-only", 0.0)
+        amp_ = [0.03, 1e-3, 0.03, 3e-4][it % 4]                     # carriers from 0 dBm down to -40 dBm (detected swings of tens of microvolts)
+        o = MZM(optical_signal(np.full(n * sps, amp_ + 0j)), x, bias=-5.0, Vpi=5.0, ER_dB=20)
+        wide_ = it % 4 == 2                                          # a wide photodiode followed by the decision routine's own filter
+        y = PD(o, (3.0 if wide_ else 0.8) * 10e9, 1.0, 300.0, 50.0, "ase-only", 0.0)
         np.random.seed(it)
         with deadline(300):
-            out, _, _ = ook.DSP(y)
+            out, _, _ = ook.DSP(y, BW=0.6 * 10e9) if wide_ else ook.DSP(y)
         events.append({"kind": "dsp", "fn": "ook.DSP", "sent": bits, "decoded": [int(b) for b in out.data]})
         meta.append(("dsp", "ook", sps))
         ctx.case(("ook.DSP", sps, it % 2), {"ook.DSP": {"slots": n, "sps": sps}})
